@@ -57,17 +57,17 @@ class LiveRender:
         lines = console.render_lines(self.renderable, options, style=style, pad=False)
         _Segment = Segment
         shape = _Segment.get_shape(lines)
-        if self._shape is None:
-            self._shape = shape
-        else:
+        last_shape = self._shape
+        if last_shape is not None:
             width1, height1 = shape
-            width2, height2 = self._shape
-            self._shape = (
+            width2, height2 = last_shape
+            shape = (
                 max(width1, min(options.max_width, width2)),
                 max(height1, height2),
             )
+        self._shape = shape
 
-        width, height = self._shape
+        width, height = shape
         lines = _Segment.set_shape(lines, width, height)
         for last, line in loop_last(lines):
             yield from _Segment.make_control(line)
